@@ -244,6 +244,16 @@ impl Space for EditSpace {
         }
         let n = s.chars.len();
         if n > self.max_chars {
+            // a long text: not every range, but one edit at each end and both together
+            if n > 1000 && s.history.len() < 2 {
+                let first = Edit { from: 0, to: 1, with: "あ".into() };
+                let last = Edit { from: n - 1, to: n, with: "".into() };
+                for b in [vec![first.clone()], vec![last.clone()], vec![first, last]] {
+                    if let Some(nx) = apply(s, &b) {
+                        out.push(nx);
+                    }
+                }
+            }
             return;
         }
         for b in self.batches(n) {
@@ -296,6 +306,10 @@ impl Space for EditSpace {
         // to_orig on every character-boundary range agrees with the point map
         for i in 0..offs.len() {
             for j in i..offs.len() {
+                // (long texts: ranges of up to two characters and ranges reaching the end)
+                if offs.len() > 64 && j > i + 2 && j + 2 < offs.len() {
+                    continue;
+                }
                 let r = s.buf.to_orig(offs[i]..offs[j]);
                 if r.start != m[i] || r.end != m[j] {
                     o.fail(Failure::new("to-orig-range", format!("{}: to_orig({}..{}) = {:?} but points map to {}..{}", ctx, offs[i], offs[j], r, m[i], m[j])));
@@ -362,6 +376,9 @@ impl Space for EditSpace {
                 }
                 for i in 0..n {
                     for j in i..=n {
+                        if n > 64 && j > i + 2 && j + 1 < n {
+                            continue;
+                        }
                         if b.curr_slice_c(i..j) != &cur[offs[i]..offs[j]] {
                             o.fail(Failure::new("curr-slice-c", format!("{}: curr_slice_c({}..{})", ctx, i, j)));
                         }
@@ -425,6 +442,9 @@ pub fn c08_text_oracle(t: &c01::TextTree, text: &str) -> Outcome {
     o
 }
 
+/// 4094 bytes of ASCII as one "symbol" of the second edit space
+const LONG_ORIGINAL: &str = include_str!("c08_long_symbol.txt");
+
 pub fn main(tier: Tier, replay: Option<String>) -> i32 {
     let mut rep = Report::new("C08", "model_checking", tier);
     rep.rule = "edit space: states = InputBuffers reached from every original string (1..init_len symbols over a/é/あ/𠮷) by every history of at most `depth` batches (every single replacement of every character range by every menu string, and every ordered non-overlapping pair); de-duplicated by (original, text, offset map, reference bookkeeping, depth); non-trivial = at least one batch applied. text trees: every string within the bound, tokenized in A/B/C; non-trivial = some byte offset differs from its code-point offset".into();
@@ -463,7 +483,10 @@ pub fn main(tier: Tier, replay: Option<String>) -> i32 {
     {
         let es2 = EditSpace {
             world: world.clone(),
-            init_syms: vec!["\u{800}", "\u{7ff}", "𠮷", "a"],
+            // (also a scalar value of the last plane, lead byte 0xF4, and an original of 4094 bytes, so
+            // that originals of 4095 .. 4098 and more bytes occur: such long texts are checked as they
+            // are and after edits of their neighbours, their own characters are not enumerated)
+            init_syms: vec!["\u{800}", "\u{7ff}", "𠮷", "a", "\u{10ffff}", LONG_ORIGINAL],
             init_len: tier.pick(2, 3),
             repl_single: vec!["", "x", "\u{800}", "x\u{fff}"],
             repl_pair: vec!["", "x", "\u{800}\u{7ff}"],
